@@ -188,4 +188,4 @@ def cases():
 
 
 def run(ctx) -> None:
-    ctx.hyp("end-to-end", cases(), lambda c: _run_one(ctx, c), ctx.n(1500, 128000))
+    ctx.hyp("end-to-end", cases(), lambda c: _run_one(ctx, c), ctx.n(4000, 160000))
